@@ -199,8 +199,11 @@ public:
 
 	bool emptyQueue() const
 	{
-		EVENTPP_VERIF_RACY_READ_SCOPE();
-		return queueList.empty() && (queueEmptyCounter.load(std::memory_order_acquire) == 0);
+		// queueList and queueEmptyCounter must be read consistently. Reading them without the mutex can
+		// report an empty queue while events are pending: the list is seen empty while processIf/processUntil
+		// has taken the events out, the counter is seen zero after the events were put back.
+		std::lock_guard<Mutex> queueListLock(queueListMutex);
+		return doEmptyQueue();
 	}
 	
 	void clearEvents()
@@ -508,9 +511,16 @@ public:
 	}
 
 protected:
+	// The caller either holds queueListMutex (wait, waitFor), or only needs a hint (whether to notify).
+	bool doEmptyQueue() const
+	{
+		EVENTPP_VERIF_RACY_READ_SCOPE();
+		return queueList.empty() && (queueEmptyCounter.load(std::memory_order_acquire) == 0);
+	}
+
 	bool doCanProcess() const
 	{
-		return ! emptyQueue() && doCanNotifyQueueAvailable();
+		return ! doEmptyQueue() && doCanNotifyQueueAvailable();
 	}
 
 	bool doCanNotifyQueueAvailable() const
